@@ -114,7 +114,11 @@ func (m *MainLoop) run(ctx context.Context) {
 			shutdown = true
 
 		case message := <-m.messagesChannel:
-			parsedMessage := interfaces.ToConsensusMessage(message)
+			parsedMessage, err := interfaces.ParseConsensusMessage(message)
+			if err != nil {
+				m.logger.Info("LHFLOW LHMSG MAINLOOP IGNORING RECEIVED MESSAGE - %s", err)
+				continue
+			}
 
 			m.logger.Debug("LHFLOW LHMSG MAINLOOP RECEIVED %v from %v for H=%d V=%d", parsedMessage.MessageType(), parsedMessage.SenderMemberId(), parsedMessage.BlockHeight(), parsedMessage.View())
 
